@@ -450,11 +450,12 @@ Proof.
   destruct (with_rproxies_ok w _ l o E1 Hd Hc E2) as (w' & F1 & F2). exists w', o. auto.
 Qed.
 
-Lemma writer_nackfrag_ok : forall src rid s fs count w, swriter_ok w ->
+Lemma writer_nackfrag_ok : forall src rid wid s fs count w, swriter_ok w ->
   fset_overflows fs = false ->
-  exists w' o, writer_nackfrag src rid s fs count w = Ok (w', o) /\ swriter_ok w'.
+  exists w' o, writer_nackfrag src rid wid s fs count w = Ok (w', o) /\ swriter_ok w'.
 Proof.
-  intros src rid s fs count w (Hd & Hc & Hp) Hf. unfold writer_nackfrag.
+  intros src rid wid s fs count w (Hd & Hc & Hp) Hf. unfold writer_nackfrag.
+  destruct (list_eqb (sw_eid w) wid); [|do 2 eexists; split; [reflexivity|repeat split; auto]].
   destruct (upd_proxy_ok _ rp_guid (fun rp => has_unsent w rp = false) (fun rp => has_unsent w rp = false)
               (src ++ rid) (nackfrag_proxy w s fs count) (sw_proxies w)) as (l & o & E1 & E2 & _); [auto| |exact Hp|].
   { intros rp _ Hrp. apply nackfrag_proxy_ok; auto. }
@@ -535,7 +536,7 @@ Proof.
   - do 3 eexists; split; [reflexivity|auto].
   - (* NackFrag *)
     destruct HR as [_ Hfs].
-    destruct (on_writers_ok C st (writer_nackfrag (rs_src rs) rid sn fstate count)) as (st' & o & E1 & E2 & E3); [|exact HI|].
+    destruct (on_writers_ok C st (writer_nackfrag (rs_src rs) rid wid sn fstate count)) as (st' & o & E1 & E2 & E3); [|exact HI|].
     { intros w Hw. apply writer_nackfrag_ok; auto. }
     rewrite E1. cbn [bind fst snd]. do 3 eexists; split; [reflexivity|]. split; [exact E2|rewrite E3; reflexivity].
   - do 3 eexists; split; [reflexivity|auto].
